@@ -319,7 +319,11 @@ def dependency_footprints(ctx: Ctx, rule: str = "footprint"):
             got, exp = sem(measure_blocks_reads(ctx, coll, name)), sem(want)
             n += 1
             added, removed = sorted(got - exp), sorted(exp - got)
-            if added or removed:
+            if removed and not added and (not got or len(removed) >= max(3, len(exp) - 1)):
+                # (almost) every dependency vanished at once and none appeared: FLOW lost the measure's construction (a
+                # member looked up by a computed name, ...) - absence of a read is no evidence
+                ctx.undecided(rule, where, f"FLOW derives only {sorted(got)} of {sorted(exp)}", "dependency footprint")
+            elif added or removed:
                 ctx.violated(rule, where, f"now also depends on {added}; no longer depends on {removed}", f"depends on {sorted(exp)}",
                              "the measure is computed from other facts than it is specified from")
             else:
@@ -382,6 +386,9 @@ def float64_extractors(ctx: Ctx, rule: str = "float64-payload"):
                             leaves.append(x)
                     for leaf in leaves:
                         t = _u(leaf)
+                        # a call of a helper of the class: what IT returns is analysed where it is defined (it is reachable)
+                        if isinstance(leaf, _ast.Call) and isinstance(leaf.func, _ast.Attribute) and isinstance(leaf.func.value, _ast.Name) and leaf.func.value.id in ("self", "cls") and ctx.repo.lookup(ci, leaf.func.attr) is not None:
+                            continue
                         if t == "None" or not ("np.array(" in t or ".astype(" in t or "np.asarray(" in t or t in ("counts", "values", "data")):
                             continue
                         n += 1
@@ -777,3 +784,35 @@ def transform_pairing_table(ctx: Ctx, rule: str = "transform-pairing"):
             continue
         ctx.ob(rule, where, bad[:2] or f"{n} cube shapes", "strand: last dimension with the rows transforms; slice: last two dimensions with (rows, columns) transforms", not bad,
                "a CA-as-0th strand (2-D cube) gets the COLUMNS transforms on its rows: its hide / prune / order requests are ignored and the columns' ones applied")
+
+
+def stored_value_expr(member, target_text: str):
+    """The expression finally stored into `target_text` (e.g. 'self._population') by `member`, as ONE expression over the
+    parameters: the function is summarised with that store turned into the return value (re-bindings such as
+    `if population is None: population = 0` before the store are part of it).  None when there is no such store."""
+    import copy as _copy
+
+    from ..symex import Summarizer
+
+    fn = _copy.deepcopy(member.node)
+    hit = []
+
+    class _T(ast.NodeTransformer):
+        def visit_FunctionDef(self, n):
+            if n is fn:
+                return self.generic_visit(n)
+            return n
+
+        def visit_Assign(self, n):
+            if len(n.targets) == 1 and u(n.targets[0]) == target_text:
+                hit.append(1)
+                return ast.Assign(targets=[ast.Name(id="__stored__", ctx=ast.Store())], value=n.value)
+            return n
+
+    fn = _T().visit(fn)
+    if not hit:
+        return None
+    fn.body.append(ast.Return(value=ast.Name(id="__stored__", ctx=ast.Load())))
+    ast.fix_missing_locations(fn)
+    params = [a.arg for a in fn.args.posonlyargs + fn.args.args + fn.args.kwonlyargs if a.arg not in ("self", "cls")]
+    return Summarizer().summarize(fn, {p: ast.Name(id=p, ctx=ast.Load()) for p in params})
